@@ -56,7 +56,12 @@ Templates ==
     E(Node("mem", "", <<Node("mem", "", <<A, Node("bool", "true", <<>>)>>), Node("null", "", <<>>)>>)),
     E(Bin("+", Node("un", "-", <<A>>), B)),
     Let("y", Node("arr", "", <<Num("1"), Bin("*", Node("un", "!", <<A>>), Num("2"))>>)),
-    E(Node("call", "", <<Id("f"), Bin("-", Node("un", "-", <<A>>), B), Id("c")>>)) }
+    E(Node("call", "", <<Id("f"), Bin("-", Node("un", "-", <<A>>), B), Id("c")>>)),
+    \* the value of a (compound) assignment begins with a bracket / sign and goes on with an operator
+    E(Node("casg", "+=", <<A, Bin("+", Node("un", "-", <<A>>), B)>>)),
+    E(Node("casg", "-=", <<A, Bin("*", Grp(Bin("+", A, B)), Id("c"))>>)),
+    E(Node("casg", "+=", <<A, Bin("+", Node("idx", "", <<Node("arr", "", <<Num("1")>>), Num("0")>>), B)>>)),
+    E(Node("asg", "=", <<A, Bin("-", Node("un", "++", <<B>>), Id("c"))>>)) }
 
 
 \* `return` outside a function is not JavaScript: such statement lists are used as function bodies only
